@@ -112,6 +112,11 @@ TEXT = {
         "level_text": "proved for every well-formed table and the whole range of both draws: the first share of the drawn row is returned iff the second draw is at most its mass (exact alias sampling, no IndexError), total_rate is the stored total; bounded (native): for generated rate vectors the table has n rows, every row sums to the mean, every item's shares sum to its rate; KNOWN FINDING: a zero-rate share is selected when the draw is exactly 0.0",
         "level_note": "level other: _build_table (list surgery with pop/append and in-place mutation) is checked natively on generated vectors only; the cell-veto handler clauses (event rate = total x speed, offset mapping) are not under contract",
     },
+    "C19": {
+        "technique": "bounded differential stand-in (no contract can state what dill does to an object graph): schedulers cloned with dill along seeded histories; dumps loaded the way resume.main() does and run on, compared with the uninterrupted run",
+        "level_text": "bounded: every dill clone of HeapScheduler / ListScheduler taken along seeded protocol-respecting histories returns the same handlers in the same time order as its original (lazily deleted entries stay dead); every resumed dump of power_bounded_dump.ini, cell_veto.ini + dumping and dipole_motion.ini + dumping reproduces the subsequent committed global states bit for bit",
+        "level_note": "bounded, not a proof: 480 clones and 3 x 2-3 dumps in quick; the custom __getstate__/__setstate__ pairs use __dict__ reflection outside the verifier's subset; the comparison 'run with dumping == run without dumping' is not included",
+    },
 }
 
 NOT_APPLICABLE = {
